@@ -16,7 +16,7 @@
 #ifndef VC_P
 #define VC_P 2
 #endif
-#define GMAX 12
+#define GMAX 20
 /* ghost cell of the result checked by this solver call (the orchestrator enumerates all cells); -1 = all cells */
 #ifndef VC_GI
 #define VC_GI -1
